@@ -25,6 +25,12 @@ CLAIMED = {
         text="Generated programs: every API operation of every stack in the universe must type-check (explicit instantiation forces all non-template member bodies), conversions between compatible stacks must type-check, "
              "and each stated kind constraint has a must-fail witness that has to be rejected by that constraint. Quick: pairwise layer-adjacency cover; thorough: full depth<=3 closure plus seeded depth 4-5 samples.",
         note="oracle for well-kinded = engine/universe.py grammar; g++ 12 decides; clang cross-check not used for verdicts"),
+    "C14": dict(
+        level="proof", design="5/C14", technique="abstract interpretation of loop-free LLVM IR: polynomial normal form (row-major), bit provenance (Morton, portable and pdep), dependence fixpoint (Hilbert side length)",
+        text="Row-major and Morton are decided completely per instantiation: the index expression is canonicalised (mod 2^64 polynomial) resp. traced bit by bit and compared with the published map, "
+             "for both Morton implementations, which therefore agree. Hilbert: only that the walk's side length is round_pow2(max extent) and that the position depends on the extents through it alone; "
+             "bijectivity/adjacency of the walk are NOT decided (data-dependent loop).",
+        note="N in 1..3 (quick) / 1..4 (thorough); coordinate types size_t/int (quick) + unsigned (thorough); x86 pdep semantics as modelled; Hilbert walk correctness not claimed"),
     "C20": dict(
         level="exploration", design="5/C20", technique="compile-time witness enumeration (static_assert units decided by the type checker)",
         text="Exhaustive enumeration, within the stated bounds, of index sequences; each case is a static_assert whose truth the C++ type checker "
